@@ -141,12 +141,12 @@ def classify(inv, o):
     if not any(x["state"] == "valid" and x["key"] == c["key"] for x in own):
         return "%s:forged-copied-cn-serial-other-key-accepted%s" % (where, extra)
     usable = [x for x in own if x["state"] == "valid" and x["key"] == c["key"]
-              and x["window"] == "ok" and x["usage"] in ("client", "both", "none")]
+              and x["window"] == "ok" and x["usage"] in ("client", "both", "none", "any", "clientUnk")]
     if not usable and c["der"] != "onchain":
         return "%s:remade-certificate-accepted-for-published-one-not-currently-valid%s" % (where, extra)
     if c["window"] != "ok":
         return "%s:outside-validity-window-accepted (%s)%s" % (where, c["window"], extra)
-    if c["usage"] not in ("client", "both", "none"):
+    if c["usage"] not in ("client", "both", "none", "any", "clientUnk"):
         return "%s:not-for-client-auth-accepted%s" % (where, extra)
     return "%s:other%s" % (where, extra)
 
@@ -222,7 +222,7 @@ def make_sessions(rnd, singles, nsess, nreq):
     seqs = [o for o in singles if o["kind"] == "seq"]
     genuine = [o for o in cases if o["cert"]["der"] == "onchain" and o["cert"]["holds"] and o["cert"]["chainLen"] == 1
                and _lookup(o["reg"], o["cert"]["cn"], o["cert"]["serial"])["state"] == "valid"
-               and o["cert"]["window"] == "ok" and o["cert"]["usage"] in ("client", "both", "none")]
+               and o["cert"]["window"] == "ok" and o["cert"]["usage"] in ("client", "both", "none", "any", "clientUnk")]
     hot = [p for p in paths if p["dseq"] in ("own", "other") and p["gseq"] == "own" and p["oseq"] == "own"] or paths
     out = []
     n = 0
